@@ -66,7 +66,7 @@ class C13(Campaign):
     def scenario(self, rnd, tier):
         k = gen.knobs(p_validator=0.1, listeners=(0, 1), rtc=[True, True, False], allow=[False, False, True],
                       async_modes=["none", "none", "none", "all", "mixed"], drivers=["sync"], p_unknown_event=0.08,
-                      p_ret=0.6, p_call_style=0.0, p_from_any=0.25)
+                      p_ret=0.6, p_call_style=0.0, p_from_any=0.25, p_event_obj=0.3)
         sc = gen.gen_scenario(rnd, k, profile="C13")
         prog = sc["programs"][0]
         is_async = any(m.get("async") for m in prog["cbs"].values())
@@ -123,7 +123,11 @@ class C13(Campaign):
             prog["event_names"] = {a: "Same label", b: "Same label"}
             for t in prog["trans"]:
                 if t.get("assign") in (a, b):
-                    del t["assign"]
+                    if rnd.random() < 0.5:
+                        t["assign_event"] = True  # ``a = Event(x.to(y), name="Same label")``
+                    else:
+                        del t["assign"]
+                        t.pop("assign_event", None)
         sc["ops"] = out
         n = len(out)
         for c in sc["gv"]:
